@@ -40,7 +40,7 @@ ASSUMPTIONS = [
     'Python exception aborts the whole arrayIndexOf call while the interaction tree continues with the failure value; generators use '
     'script functions and partial applications of script functions as predicates; likewise systemType() / systemBoolean() with NO argument '
     'and systemGlobalSet(name) with one argument succeed in the code (missing argument = null) but are failures in the Lean host: library '
-    'functions passed around as values are restricted to arrayGet/arrayCopy/arrayLength/arrayNew, which agree for every argument count',
+    'function passed around as a value (it may end up as a predicate) is arrayNew, which cannot fail',
     'Python recursion limit: programs are run with maxStatements=200 and the recursion limit raised, so RecursionError (DESIGN section 6) '
     'cannot occur',
 ]
@@ -557,7 +557,7 @@ class CallGen:
                 self.tags.add('partial-as-value')
                 return call('systemPartial', var(name), *[self.atom([]) for _ in range(self.rng.randint(1, 2))])
             return var(name)
-        return var(self.rng.choice(['arrayGet', 'arrayCopy', 'arrayLength', 'arrayNew']))
+        return var('arrayNew')      # the one library function that cannot fail, whatever it is called with (see ASSUMPTIONS)
 
     def arg(self, scope, fn_rank):
         if fn_rank > 0 and self.rng.random() < 0.12:
@@ -684,7 +684,9 @@ class CallGen:
         late = None
         for rank in range(nfun):
             fd = self.funcdef(rank)
-            if rank == nfun - 1 and rng.random() < 0.08:
+            # (a late definition under a library name would leave the LIBRARY function callable with 0-5 arguments before it; the Lean
+            # host does not model every arity of every library function, so late definitions use non-library names)
+            if rank == nfun - 1 and rng.random() < 0.1 and fd['name'] in FN_NAMES:
                 late = fd
                 self.tags.add('late-definition')
             else:
@@ -1053,7 +1055,89 @@ def stream_exprmode(ctx):
         compare_program(ctx, 'exprmode', st, prog, g, {'script-mode'}, False, resp)
 
 
+def to_model(prog):
+    """structured program in the expr/ret/func subset -> implementation model dicts, WITHOUT going through the parser (so that
+    shapes the parser never emits can be built: nested function statements, explicit flags, absent/empty 'args')"""
+    out = []
+    for s in prog:
+        if s['k'] == 'expr':
+            d = {'expr': progen.impl_expr(s['e'])}
+            if s.get('name'):
+                d['name'] = s['name']
+            out.append({'expr': d})
+        elif s['k'] == 'ret':
+            out.append({'return': {'expr': progen.impl_expr(s['e'])} if s.get('e') else {}})
+        elif s['k'] == 'func':
+            d = {'name': s['name'], 'statements': to_model(s['b'])['statements']}
+            if s['args'] or s.get('emptyArgs'):
+                d['args'] = list(s['args'])
+            if s.get('lastArgArray') or s.get('explicitFlag'):
+                d['lastArgArray'] = bool(s.get('lastArgArray'))
+            out.append({'function': d})
+        else:
+            raise ValueError(s['k'])
+    return {'statements': out}
+
+
+def fdef(name, params, body, rest=False, **extra):
+    return dict({'k': 'func', 'fid': 0, 'name': name, 'args': list(params), 'lastArgArray': rest, 'async': False, 'b': body}, **extra)
+
+
+def asg(name, e):
+    return {'k': 'expr', 'name': name, 'e': e}
+
+
+def handbuilt_programs():
+    log = lambda e: asg(None, call('systemLog', e))  # noqa: E731
+    # a function statement INSIDE a function body binds a GLOBAL (also over a library name); its own locals stay local
+    yield 'nested-function', [
+        fdef('outer', ['p'], [asg('loc', num(1)),
+                              fdef('inner', ['q'], [log(wf_binary('+', string('inner:'), var('q'))), log(wf_binary('+', string('loc:'), var('loc'))),
+                                                    {'k': 'ret', 'e': var('q')}]),
+                              fdef('arrayLength', ['a'], [{'k': 'ret', 'e': string('nested-mine')}]),
+                              asg('r', call('inner', var('p'))), log(call('systemType', var('inner'))), {'k': 'ret', 'e': var('r')}]),
+        asg('t0', call('systemType', var('inner'))), asg('n0', call('arrayLength', call('arrayNew', num(1)))),
+        asg('x', call('outer', num(5))),
+        asg('t1', call('systemType', var('inner'))), asg('n1', call('arrayLength', call('arrayNew', num(1)))), asg('y', call('inner', num(6)))], {}
+    yield 'nested-function-host', [
+        fdef('outer', [], [fdef('hostfn', [], [{'k': 'ret', 'e': string('script')}]), asg('hostfn', num(3)), {'k': 'ret', 'e': var('hostfn')}]),
+        asg('a', call('outer')), asg('b', call('hostfn'))], {'hostfn': 7}
+    for rest in (False, True):
+        for nargs in (0, 1, 3):
+            args = ARG_EXPRS[:nargs]
+            # explicit 'lastArgArray' (False included - F23), explicit empty 'args', no 'args' key at all
+            yield f'explicit-flag-{rest}-{nargs}', [
+                fdef('ff', ['p', 'q'], [log(var('p')), log(var('q')), {'k': 'ret', 'e': var('q')}], rest, explicitFlag=True),
+                asg('r', call('ff', *args))], {}
+            yield f'empty-args-{rest}-{nargs}', [
+                fdef('ff', [], [log(string('in')), {'k': 'ret', 'e': num(1)}], rest, explicitFlag=True, emptyArgs=True),
+                asg('r', call('ff', *args))], {}
+            yield f'no-args-key-{rest}-{nargs}', [
+                fdef('ff', [], [log(string('in')), {'k': 'ret', 'e': num(1)}], rest, explicitFlag=True),
+                asg('r', call('ff', *args))], {}
+
+
+def stream_handbuilt(ctx):
+    st = ctx.stream('handbuilt', 'hand-built models the parser never emits: function statements nested in a function body (bind a global, also '
+                                 'over a library name and over a host binding), explicit lastArgArray true/false, explicit empty args, absent '
+                                 'args; implementation vs Lean machine vs reference; fixed list')
+    cases = [(tag, progen.assign_fids(prog), host) for tag, prog, host in handbuilt_programs()]
+    models = [to_model(prog) for _, prog, _ in cases]
+    resps = ctx.driver.batch([{'op': 'exec', 'script': progen.canon_script(m), 'globals': wire_globals(h), 'max': MAX_STATEMENTS, 'fuel': FUEL}
+                              for m, (_, _, h) in zip(models, cases)])
+    for (tag, prog, host), model, resp in zip(cases, models, resps):
+        impl = run_impl(model, host)
+        st.case([tag, model], nontrivial='error' not in impl, tags=[tag.rsplit('-', 2)[0] if tag[-1].isdigit() else tag])
+        inp = {'kind': 'handbuilt', 'tag': tag, 'model': model, 'globals': host, 'prog': prog}
+        ctx.compare('handbuilt', inp, impl, progen.canon_model_out(resp))
+        if 'hostexc' in impl:
+            ctx.witness('no-host-exception', inp, 'result or BareScriptRuntimeError', impl['hostexc'])
+        witness_all(ctx, 'handbuilt', inp, oracle_run(prog, host, impl))
+    st.exhaustive = True
+
+
 def streams(ctx):
+    stream_handbuilt(ctx)
     stream_binding(ctx)
     stream_hostglobals(ctx)
     stream_exprmode(ctx)
@@ -1100,6 +1184,11 @@ def replay(witness):
     if kind == 'program':
         model = parse(inp['text'])
         impl = run_impl(explicit_flags(model) if inp.get('explicit_flags') else model, inp['globals'])
+        if oracle == 'no-host-exception':
+            return 'hostexc' in impl
+        bad = oracle_run(inp['prog'], inp['globals'], impl)
+    elif kind == 'handbuilt':
+        impl = run_impl(inp['model'], inp['globals'])
         if oracle == 'no-host-exception':
             return 'hostexc' in impl
         bad = oracle_run(inp['prog'], inp['globals'], impl)
